@@ -418,10 +418,22 @@ pub fn run(tier: Tier) -> ! {
             Cfg::single(vec![CPat::new("a", 0).with_la(false, "\\x00"), CPat::new("[\\x00é]", 1), CPat::new("a", 2)]),
             Cfg { modes: vec![CMode { name: "A".into(), pats: vec![CPat::new("a", 0), CPat::new("[^aé]", 1)], transitions: vec![(1, 1)] }, CMode { name: "B".into(), pats: vec![CPat::new("[^é]+", 2), CPat::new("é", 1)], transitions: vec![(1, 0)] }] },
         ];
-        let ins = refsem::families::inputs(&['\0', 'a', 'é', '\u{10ffff}'], if tier == Tier::Quick { 3 } else { 4 });
+        // characters that coincide with a pattern character once truncated to 7, 8 or 16 bits
+        // (a / á / š / U+10061; - / U+4E2D / U+1002D): a table indexed by a truncated character
+        // and filled by whatever is scanned first shows when the alias comes before the original
+        let alias = vec![
+            Cfg::single(vec![CPat::new("a", 0)]),
+            Cfg::single(vec![CPat::new("a+", 0), CPat::new("š", 1)]),
+            Cfg::single(vec![CPat::new("-", 0), CPat::new("[0-9a]+", 1)]),
+            Cfg::single(vec![CPat::new("[\\u{10061}\\u{4e2d}]", 0), CPat::new("a-", 1)]),
+        ];
+        let l = if tier == Tier::Quick { 3 } else { 4 };
+        let groups: Vec<(&Vec<Cfg>, Vec<String>)> = vec![(&wide, refsem::families::inputs(&['\0', 'a', 'é', '\u{10ffff}'], l)), (&alias, refsem::families::inputs(&['a', 'á', 'š', '\u{10061}', '-', '\u{4e2d}', '\u{1002d}'], l.min(3)))];
         let tables = refsem::sem::AtomTables::default();
         let mut scans = 0usize;
-        for cfg in &wide {
+        let mut n_inputs = 0usize;
+        for (cfg, ins) in groups.iter().flat_map(|(cfgs, ins)| cfgs.iter().map(move |c| (c, ins))) {
+            n_inputs += ins.len();
             let spec = cfg.to_spec().expect("family configurations are in the modelled fragment");
             let tabs: Vec<ScanTable> = ins.iter().map(|i| ScanTable::new(&spec, i, &tables)).collect();
             let n = ins.len();
@@ -454,7 +466,7 @@ pub fn run(tier: Tier) -> ! {
                 total.viol.merge(a.viol);
             }
         }
-        fams.push(json!({"family": "history independence against the reference: fresh scanner, scan x1 then x2 for ALL ordered pairs of inputs over {U+0000, a, é, U+10FFFF}^<=3 (thorough 4), every scan compared in lockstep with the reference; every 7th pair also through build()", "configurations": wide.len(), "inputs": ins.len(), "scans_compared": scans, "exhaustive": true}));
+        fams.push(json!({"family": "history independence against the reference: fresh scanner, scan x1 then x2 for ALL ordered pairs of inputs over {U+0000, a, é, U+10FFFF}^<=3 (thorough 4) on wide classes and over {a, á, š, U+10061, -, U+4E2D, U+1002D}^<=3 (characters equal after truncation to 7, 8 or 16 bits) on literal patterns, every scan compared in lockstep with the reference; every 7th pair also through build()", "configurations": wide.len() + alias.len(), "inputs_summed_over_configurations": n_inputs, "scans_compared": scans, "exhaustive": true}));
     }
 
     // sizes around 2^8 and 2^16 steps: a token, n repetitions, the first token again, scanned alone,
